@@ -121,6 +121,7 @@ type Interp struct {
 	harnessPkg *ssa.Package
 	crcCalls []crcCall // checksum computations seen so far (C19)
 	casDelta map[string]*Term // ghost: interference applied at compare-and-swap operations, per cell
+	casOps   int              // compare-and-swap operations executed so far (interference budget)
 	realKeys bool
 	recTag   string
 	firstRecObj int
